@@ -34,7 +34,7 @@ class Classifier:
         def hook(fl_, bb, t, cn):
             if cn in MASK or cn in PERM:
                 return "opaque"
-            if cn in ADDITIVE:
+            if cn in ADDITIVE or cn in C02.nop_wrappers(self.facts) or cn in C02.annotating_helpers(self.facts):
                 return [i for i, a in enumerate(t["args"]) if a[0] != "k" and has_node(b.local_ty(a[1][0]))]
             return None
         return Flow(self.facts, b, C02.EXTRA, call_hook=hook)
@@ -107,19 +107,16 @@ def run(facts, rep, tier):
         if "/mpc/" not in b.file:
             continue
         fl = Flow(facts, b, C02.EXTRA)
-        sites = C02.send_sites(facts, b, fl)
-        if not sites:
+        tr = C02.transfers(facts, name, fl)
+        if not tr:
             continue
         fd = cl.flow(b)
         root = b.root or name
         req = REQUIRE_MASK.get(name) or REQUIRE_MASK.get(root)
-        for k, (bb, recv, aggs) in enumerate(sites):
-            lv = set()
-            for o in recv:
-                if o[0] == "call" and o[2] in C02.NOPS:
-                    t = b.term(o[1])
-                    a = t["args"][-1] if o[2].endswith("Graph::nop") else t["args"][0]
-                    lv |= cl.leaves(b, fd, a, (o[1], None))
+        for k, nb in enumerate(sorted(tr)):
+            pay = tr[nb]
+            lv = cl.leaves(b, fd, pay, (nb, None)) if pay is not None else set()
+            # a nop created by a wrapper: the wrapper forwards its Node argument
             c = cl.classify(lv)
             n += 1
             table["%s#%d" % (name, k)] = {"class": c, "leaves": sorted(set(x[1].split("::")[-1] if isinstance(x[1], str) else str(x[1]) for x in lv))}
@@ -127,7 +124,7 @@ def run(facts, rep, tier):
                 rep.ob("C03.M", "%s|send#%d" % (name, k), c == "A",
                        "message carries a fresh additive mask (%s) [%s]" % (table["%s#%d" % (name, k)]["leaves"], req) if c == "A" else
                        "message of a masking protocol has no pseudo-random term in its additive closure (leaves: %s): the receiver "
-                       "sees a value that depends on another party's data [%s]" % (table["%s#%d" % (name, k)]["leaves"], req), b.loc(bb))
+                       "sees a value that depends on another party's data [%s]" % (table["%s#%d" % (name, k)]["leaves"], req), b.loc(nb))
     rep.tables["send_payload_classes"] = table
     rep.tables["classes"] = {"A": "one-time-pad shape: additive closure contains PRF/random/zero-share term",
                              "P": "composition with a random permutation (shuffle protocols)", "K": "PRF key distribution",
